@@ -55,30 +55,33 @@ def thStr : Option Int → String
   | some k => toString k
   | none => "~"
 
-/-- all annotations of the record returned by `AssemblePESequences(…, withStats = true, …)`, keys sorted:
-`key=value;…`.  In join mode the record is `JoinPairedSequence(seqA, seqB)`: the annotations written on the
-discarded consensus (`pairing_mismatches`, `paring_fast_*`) are not there. -/
-def annotations (fast : Bool) (v : Vote) (ovr : Int) (asm : Assembled) (mm : List (String × Nat)) : String :=
+/-- all annotations of the record returned by `AssemblePESequences(…, withStats = true, …)`, keys sorted.
+In join mode the record is `JoinPairedSequence(seqA, seqB)`: the annotations written on the discarded
+consensus (`pairing_mismatches`, `paring_fast_*`) are not there. -/
+def annotEntries (fast : Bool) (v : Vote) (ovr : Int) (asm : Assembled) (mm : List (String × Nat)) :
+    List (String × String) :=
   let opt := fun (k : String) (o : Option String) => match o with
-    | some x => [k ++ "=" ++ x]
+    | some x => [(k, x)]
     | none => []
   let sn := if asm.aliLength > 0 then thStr (thousandths asm.nmatch asm.aliLength) else "0"
   let fs := if v.num < 0 then "-1000" else thStr (thousandths v.num v.den)
   let mmS := "{" ++ ",".intercalate (mm.map fun e => e.1 ++ ":" ++ toString e.2) ++ "}"
-  let ents :=
-    opt "ali_dir" (asm.dirLeft.map fun l => if l then "left" else "right") ++
-    ["ali_length=" ++ toString asm.aliLength] ++
-    ["mode=" ++ (if asm.alignment then "alignment" else "join")] ++
-    (if asm.alignment ∧ ¬ mm.isEmpty then ["pairing_mismatches=" ++ mmS] else []) ++
-    (if asm.alignment ∧ fast then
-      ["paring_fast_count=" ++ toString v.count, "paring_fast_overlap=" ++ toString ovr, "paring_fast_score=" ++ fs]
-     else []) ++
-    ["score=" ++ toString asm.score] ++
-    ["score_norm=" ++ sn] ++
-    opt "seq_a_single" (asm.aSingle.map toString) ++
-    ["seq_ab_match=" ++ toString asm.nmatch] ++
-    opt "seq_b_single" (asm.bSingle.map toString)
-  ";".intercalate ents
+  opt "ali_dir" (asm.dirLeft.map fun l => if l then "left" else "right") ++
+  [("ali_length", toString asm.aliLength)] ++
+  [("mode", if asm.alignment then "alignment" else "join")] ++
+  (if asm.alignment ∧ ¬ mm.isEmpty then [("pairing_mismatches", mmS)] else []) ++
+  (if asm.alignment ∧ fast then
+    [("paring_fast_count", toString v.count), ("paring_fast_overlap", toString ovr), ("paring_fast_score", fs)]
+   else []) ++
+  [("score", toString asm.score)] ++
+  [("score_norm", sn)] ++
+  opt "seq_a_single" (asm.aSingle.map toString) ++
+  [("seq_ab_match", toString asm.nmatch)] ++
+  opt "seq_b_single" (asm.bSingle.map toString)
+
+/-- `key=value;…` -/
+def annotations (fast : Bool) (v : Vote) (ovr : Int) (asm : Assembled) (mm : List (String × Nat)) : String :=
+  ";".intercalate ((annotEntries fast v ovr asm mm).map fun e => e.1 ++ "=" ++ e.2)
 
 /-- `byte(math.Log10(1-math.Pow(10,-float64(qm)/30))*10+0.5)` for `qm = 0..93` as computed by the Go code on
 amd64 (a negative float converted to `byte`: −10.8 ↦ −10 ↦ 246).  Float-derived **data**: the driver refuses
